@@ -566,6 +566,7 @@ func (s *sys) do(op string) (string, *eng.Violation) {
 			theRun.Add("fd_script_"+script, 1)
 		}
 		// model first (so that the features are known if the code under test panics)
+		payloads := []string{}
 		extends := false // some step made the file longer than it was just before that step
 		off := 0
 		for _, c := range script {
@@ -576,7 +577,14 @@ func (s *sys) do(op string) (string, *eng.Violation) {
 				for len(d) < off+2 {
 					d += "\x00"
 				}
-				m.data = d[:off] + "xy" + d[off+2:]
+				// the payload always differs from what is there, so a lost
+				// write is never invisible
+				pl := "xy"
+				if d[off:off+2] == pl {
+					pl = "XY"
+				}
+				payloads = append(payloads, pl)
+				m.data = d[:off] + pl + d[off+2:]
 				off += 2
 			case 'a':
 				m.data += "z"
@@ -591,6 +599,7 @@ func (s *sys) do(op string) (string, *eng.Violation) {
 		_ = oldLen
 		s.lastFeat = append(s.lastFeat, "file_shape", shape, "extends", fmt.Sprint(extends))
 		theRun.Add("write_"+shape+"_extends_"+fmt.Sprint(extends), 1)
+		theRun.Logf("%s: file shape %s", op, shape)
 		var werr error
 		for _, c := range script {
 			if werr != nil {
@@ -598,7 +607,8 @@ func (s *sys) do(op string) (string, *eng.Violation) {
 			}
 			switch c {
 			case 'w':
-				_, werr = fd.Write([]byte("xy"))
+				_, werr = fd.Write([]byte(payloads[0]))
+				payloads = payloads[1:]
 			case 'a':
 				if _, werr = fd.Seek(0, io.SeekEnd); werr == nil {
 					_, werr = fd.Write([]byte("z"))
@@ -1116,7 +1126,7 @@ func specs(r *eng.Run) []eng.SeqSpec {
 
 func main() {
 	eng.Main("C19", "model_checking", func(r *eng.Run) {
-		r.Rule("BFS over sequences of Mkdir/Mkdir -p/PutNode(create)/open-write-close/open-truncate-close/open-append-close/write-flush-truncate call orders on one descriptor/Mkdir with WithMode+WithModTime (only the named directory gets them)/Mv/Unlink/Chmod/Touch/FlushPath/root Flush/Lookup on a fresh mfs.Root (4 configurations: publish function set or nil x default or tiny (MaxLinks=2) sharding, + 1 configuration in which the live-view observers run after every operation on the same root); successor = replay on a fresh root + 1 op; state = model tree + entriesCache contents and basic/HAMT kind of every cached directory; after every transition (a) the tree shown by ListNames/List/Lookup/Open+Read/Size/Mode/ModTime and (b) the root DAG after Flush read through uio directories + DagReader are compared with the model tree incl. contents, mode, mtime; a failed op must leave both unchanged; non-trivial = path of >= 2 operations")
+		r.Rule("BFS over sequences of Mkdir/Mkdir -p/PutNode(create)/open-write-close/open-truncate-close/open-append-close (each also closed without Sync)/Reopen (flush+Close+NewRoot from the flushed node)/write-flush-truncate call orders on one descriptor/Mkdir with WithMode+WithModTime (only the named directory gets them)/Mv/Unlink/Chmod/Touch/FlushPath/root Flush/Lookup on a fresh mfs.Root (4 configurations: publish function set or nil x default or tiny (MaxLinks=2) sharding, + 1 configuration in which the live-view observers run after every operation on the same root + 1 CIDv1 (raw leaves) configuration); successor = replay on a fresh root + 1 op; state = model tree + entriesCache contents and basic/HAMT kind of every cached directory; after every transition (a) the tree shown by ListNames/List/Lookup/Open+Read/Size/Mode/ModTime and (b) the root DAG after Flush read through uio directories + DagReader are compared with the model tree incl. contents, mode, mtime; a failed op must leave both unchanged; non-trivial = path of >= 2 operations")
 		r.Assume("in-memory DAG service (map datastore, offline exchange) is correct; UnixFS readers (uio.Directory enumeration, DagReader) are correct (C08/C09/C15)")
 		r.Assume("one operation at a time per root (concurrency is C20); file descriptors are opened, used and closed within one operation")
 		n, bounds := 0, []string{}
